@@ -201,6 +201,12 @@ def run(ctx):
             add('uid-text', mutate_bytes(r, v, 2))
     for u in ['User::"a"', 'A::B::"x\\n"', '::"a"', 'User::', 'User::"a', 'User::"\\u{110000}"', 'User::"\\"', '"a"::"b"', 'User::"a"x', '']:
         add('uid-text', u)
+        # the same texts indented / followed by white space of every length up to a line's worth (an index computed before trimming is a classic)
+        for ws in (' ', '\t', '\n', '\r\n', '\x0b', '\u00a0'):
+            for n_ in (1, 2, 3, 4, 5, 6, 8, 12, 40):
+                add('uid-text', ws * n_ + u)
+                add('uid-text', u + ws * n_)
+                add('uid-text', ws * n_ + u + ws * (n_ // 2))
     sj = json.loads(SCHEMA_JSON)
     add('schema-text', SCHEMA_TEXT)
     add('schema-json', SCHEMA_JSON)
